@@ -25,6 +25,8 @@ def clampdt(t):
 def special_anchor(rng):
     y = rng.randrange(1900, 2200)
     r = rng.random()
+    if r < 0.06:  # special instants: the epoch (0 ms is falsy), the edges of the explored range, 2000-01-01 / 29 Feb 2000
+        return rng.choice([datetime(1970, 1, 1), datetime(1900, 1, 1), datetime(2200, 12, 31), datetime(2000, 1, 1), datetime(2000, 2, 29), datetime(1969, 12, 31, 23, 59, 59)])
     if r < 0.35:  # the last days of a month
         m = rng.randrange(1, 13)
         last = calendar.monthrange(y, m)[1]
@@ -47,6 +49,10 @@ def gen_time_domain(rng, min_span_ms=1, max_span_ms=250 * 365 * 86400000):
     if r < 0.12:
         span = rng.choice([7, 8, 9, 7, 8, 9, 6, 11, 3, 1, 2])
         tag = "tiny-ms"
+    elif r < 0.18:
+        # spans that are exactly one table step, or m times it
+        span = rng.choice(SPANS_MS) * rng.choice([1, 1, 2, 10, (m or 10)])
+        tag = "table"
     elif r < 0.55:
         base = rng.choice(SPANS_MS)
         span = max(1, int(base * rng.uniform(0.6, 1.9)))
@@ -58,7 +64,11 @@ def gen_time_domain(rng, min_span_ms=1, max_span_ms=250 * 365 * 86400000):
         tag = "loguniform"
     span = max(min_span_ms, min(span, max_span_ms))
     q = rng.random()
-    if q < 0.45:
+    if q < 0.12:
+        a = special_anchor(rng)  # the domain STARTS exactly on the special instant
+        if tag != "tiny-ms":
+            tag += "+calendar-edge"
+    elif q < 0.45:
         a = special_anchor(rng) + ms(rng.choice([0, 0, rng.randrange(86400000)])) - ms(int(span * rng.random()))
         if tag != "tiny-ms":
             tag += "+calendar-edge"
